@@ -62,6 +62,8 @@ if addi or addh:
         s = s.replace("-- REGISTER-IMPORT", "\n".join(addi) + "\n-- REGISTER-IMPORT")
     for h in addh:
         name = re.search(r"(Drive\.\w+\.handle)", h).group(1)
+        if name in s:
+            continue
         s = s.replace("  -- REGISTER-HANDLER", f"  , {name}\n  -- REGISTER-HANDLER")
     open(p, "w").write(s)
 print("copied:", *copied, sep="\n  ")
